@@ -34,12 +34,12 @@ def _alarm(signum, frame):
     raise TimeBox()
 
 
-def run_main(args):
+def run_main(args, box=None):
     """('ok' | 'ProphycError' | 'timeout' | exception class name, message)"""
     import prophyc
     # CPU time of this process (ITIMER_PROF), not wall clock: a loaded machine must not look like a hanging prophyc
     old = signal.signal(signal.SIGPROF, _alarm)
-    signal.setitimer(signal.ITIMER_PROF, TIME_BOX)
+    signal.setitimer(signal.ITIMER_PROF, box or TIME_BOX)
     try:
         py_impl.run_prophyc(args)
         return 'ok', ''
@@ -196,6 +196,15 @@ def audit_cases():
         ('one block comment of 2 MB', outs + ['@D/a.prophy'], {'a.prophy': '/*' + 'x' * 2000000 + '*/ struct A { u8 a; };'}),
         ('one block comment of 4 MB that is not terminated', outs + ['@D/a.prophy'], {'a.prophy': 'struct A { u8 a; };\n/*' + 'x' * 4000000}),
         ('one block comment of 4 MB of stars', outs + ['@D/a.prophy'], {'a.prophy': '/*' + ' *' * 2000000 + '*/ struct A { u8 a; };'}),
+        ('isar constant: 120 kB of shiftLeft( that never closes (D203)', ['--isar'] + outs + ['@D/a.xml'],
+         {'a.xml': '<x><constant name="K" value="%s1"/></x>' % ('shiftLeft(' * 12000)}),
+        ('isar array size: 60 kB of bitMaskOr( that never closes (D203)', ['--isar'] + outs + ['@D/a.xml'],
+         {'a.xml': '<x><struct name="S"><member name="a" type="u8"><dimension size="%s1"/></member></struct></x>' % ('bitMaskOr(' * 6000)}),
+        ('a struct of 16000 counted arrays, no output (D204)', ['--void_out', '@D/a.prophy'],
+         {'a.prophy': 'struct S {\n' + ''.join('    u8 a%d<>;\n' % k for k in range(16000)) + '};\n'}),
+        ('a struct of 12000 limited arrays (D204)', outs + ['@D/a.prophy'],
+         {'a.prophy': 'struct S {\n' + ''.join('    u8 a%d<3>;\n' % k for k in range(12000)) + '};\n'}),
+        ('1 MB of characters outside the language (D204)', outs + ['@D/a.prophy'], {'a.prophy': '$' * 1000000}),
         ('isar include name with a line break, schema output', ['--isar', '--prophy_out', '@D', '@D/a.xml'],
          {'a.xml': XI % '<xi:include href="types&#10;v2.xml" comment="a comment that is definitely longer than fifty characters in total"/>'}),
         ('isar name ending in a line break, schema output', ['--isar', '--prophy_out', '@D', '@D/a.xml'],
@@ -315,7 +324,9 @@ def run_c13(tier):
             if timeouts[0] >= 3:        # every time-out costs the whole time box; three replays are enough
                 shutil.rmtree(d, ignore_errors=True)
                 return 'skipped'
-            outcome, msg = run_main(full)
+            # an include chain costs one parser construction per level (about 0.1 s of CPU each, up to the interpreter's stack): bounded,
+            # and several times the box on a loaded machine
+            outcome, msg = run_main(full, 6 * TIME_BOX if 'include chain' in str(note) else None)
             if outcome == 'timeout':
                 timeouts[0] += 1
             chk.count((kind, str(args), str(sorted(files.items()))), outcome != 'ok')
@@ -325,7 +336,7 @@ def run_c13(tier):
             if outcome != 'ok':
                 chk.sample({'kind': kind, 'args': args, 'files': casej['files'], 'outcome': outcome, 'message': msg[:200]}, limit=4)
             if outcome == 'timeout':
-                chk.property_violation(casej, {'what': 'prophyc did not terminate within %.0f s' % TIME_BOX})
+                chk.property_violation(casej, {'what': 'prophyc did not terminate within %.0f s of CPU time' % (6 * TIME_BOX if 'include chain' in str(note) else TIME_BOX)})
             elif outcome.startswith('internal:'):
                 chk.property_violation(casej, {'what': 'internal exception %s escaped prophyc.main: %s' % (outcome[9:], msg)})
             elif outcome not in ('ok', 'ProphycError', 'SystemExit', 'skipped'):
